@@ -15,12 +15,13 @@ LEVEL_NOTE = "trusts nothing but the exception classes themselves; records are C
 RULE = ("per class: uniform ACGT strings (length 1..80), strings over the 15-letter IUPAC alphabet in both cases, very short records "
         "(1..6), own structure instances, other classes' instances, every-position single-letter corruptions of an instance (5 "
         "replacement letters incl. N and lower case; thorough: all positions), fully lower-cased instances, instances with an extra "
-        "site; assemblies of 1..4 records drawn from pools of valid and invalid records of the same kit. "
+        "site; assemblies of 1..4 records drawn from pools of valid and invalid records of the same kit; complete chains of 1..6 modules with "
+        "each link in turn taken away or replaced by a non-module. "
         "Non-trivial = is_valid returned False and all extraction methods were then exercised, or an assembly mixing valid and invalid "
         "records was run; distinct = distinct (class, sequence).")
 ASSUMPTIONS = ["records are CircularRecords over Seq, length >= 1, letters from the IUPAC alphabet in either case",
                "a documented MoClo exception whose str()/repr() itself raises counts as an internal error (it surfaces when the failure is logged)"]
-FLOORS = {"c17_is_valid_calls": 5000, "c17_invalid_entities_probed": 1500, "c17_assemblies": 300, "c17_assemblies_failed": 100, "c17_assemblies_succeeded": 30}
+FLOORS = {"c17_is_valid_calls": 5000, "c17_invalid_entities_probed": 1500, "c17_assemblies": 300, "c17_assemblies_failed": 100, "c17_assemblies_succeeded": 30, "c17_broken_chain_assemblies": 400}
 MUST_REACH = ["StructuredRecord.is_valid", "AbstractVector.assemble"]
 BUDGET_S = {"quick": 900, "thorough": 7200}
 IUP = "ACGTRYSWKMBDHVN"
@@ -37,6 +38,8 @@ def cases(tier, seed):
         out.append({"kind": "generic", "enzyme": e, "seed": seed, "count": per})
     for j in range(0, 600 if tier == "quick" else 120000, 20):
         out.append({"kind": "assemblies", "from": j, "count": 20, "seed": seed})
+    for j in range(0, 160 if tier == "quick" else 30000, 10):
+        out.append({"kind": "broken-chains", "from": j, "count": 10, "seed": seed})
     return out
 
 
@@ -208,6 +211,37 @@ def execute(mat, ctx):
             for letter in ("N", "n", "R", rng.choice("acgt"), rng.choice([x for x in "ACGT" if x != s[i]])):
                 probe(ctx, cls, s[:i] + letter + s[i + 1:], "corruption")
         ctx.sample({"kind": "corruptions", "class": mat["cls"], "instance": s}, cap=1)
+        return
+    if kind == "broken-chains":
+        # complete chains of 1..6 modules from which one link is taken away (first, middle or last), or in which one link is
+        # replaced by a record that is not a module at all: every such call must end with a documented MoClo error
+        import warnings
+        from . import _embedded
+
+        for j in range(mat["from"], mat["from"] + mat["count"]):
+            rng = gen.rng_for(mat["seed"], PROP, "broken", j)
+            ename = rng.choice(gen.enzyme_names())
+            amat = _embedded.materialise_assembly({"kind": "assembly", "i": j, "seed": mat["seed"], "enzyme": ename,
+                                                   "opts": {"features": False, "max_chain": 6 if j % 4 == 0 else 4}})
+            V, M = gen.generic_classes(ename)
+            vt = amat["vector"]["seq"]
+            mts = [m["seq"] for m in amat["modules"]]
+            for drop in range(len(mts)):
+                for how in ("dropped", "replaced"):
+                    rest = mts[:drop] + mts[drop + 1:] if how == "dropped" else mts[:drop] + [gen.rand_dna(rng, rng.randint(20, 60))] + mts[drop + 1:]
+                    if not rest:
+                        continue
+                    ctx.count("evaluations")
+                    ctx.count("c17_broken_chain_assemblies")
+                    with warnings.catch_warnings():
+                        warnings.simplefilter("ignore")
+                        try:
+                            _entity(V, vt).assemble(*[_entity(M, t) for t in rest])       # judged by the monitor
+                            ctx.count("c17_assemblies_succeeded")
+                        except Exception:
+                            pass
+            ctx.nontrivial(["broken-chain", ename, vt, mts])
+        ctx.sample({"kind": kind, "from": mat["from"]}, cap=1)
         return
     # assemblies mixing valid and invalid records
     import warnings
